@@ -353,6 +353,113 @@ func assertingCall(in ssa.Instruction) (ssa.Value, bool) {
 	return nil, false
 }
 
+// assertedPost: per function, the length comparisons over parameter-rooted paths that an
+// errorutil.AssertTrue call establishes on every normal return (the assertion dominates every
+// return, and the function stores to no field named in the path).
+type postCmp struct {
+	cmp   Cmp
+	param int
+}
+
+var assertedPostCache = map[*ssa.Function][]postCmp{}
+
+func assertedPost(fn *ssa.Function) []postCmp {
+	if r, ok := assertedPostCache[fn]; ok {
+		return r
+	}
+	assertedPostCache[fn] = nil
+	if len(fn.Blocks) == 0 || len(fn.Blocks) > 200 {
+		return nil
+	}
+	var rets []ssa.Instruction
+	stores := map[string]bool{}
+	allInstrs(fn, func(in ssa.Instruction) {
+		switch x := in.(type) {
+		case *ssa.Return:
+			if in.Block() != fn.Recover {
+				rets = append(rets, in)
+			}
+		case *ssa.Store:
+			if fa, ok := x.Addr.(*ssa.FieldAddr); ok {
+				stores[fieldName(fa.X.Type(), fa.Field)] = true
+			}
+		}
+	})
+	var out []postCmp
+	allInstrs(fn, func(in ssa.Instruction) {
+		cond, ok := assertingCall(in)
+		if !ok {
+			return
+		}
+		for _, rt := range rets {
+			if !dominates(in, rt) {
+				return
+			}
+		}
+		tf := newFacts()
+		tf.addCond(cond, true, 0)
+		for _, cm := range tf.Cmps {
+			lt, other := cm.L, cm.R
+			if !lt.isLen() {
+				lt, other = cm.R, cm.L
+			}
+			if !lt.isLen() || !other.IsConst || !isPathLike(lt.LenVal) {
+				continue
+			}
+			pr, isP := rootOf(lt.LenVal).(*ssa.Parameter)
+			if !isP {
+				continue
+			}
+			clean := true
+			for _, seg := range strings.Split(lt.LenPath, ".")[1:] {
+				if stores[seg] {
+					clean = false
+				}
+			}
+			idx := -1
+			for i, p := range fn.Params {
+				if p == pr {
+					idx = i
+				}
+			}
+			if clean && idx >= 0 && (lt.LenPath == pr.Name() || strings.HasPrefix(lt.LenPath, pr.Name()+".")) {
+				out = append(out, postCmp{cmp: cm, param: idx})
+			}
+		}
+	})
+	assertedPostCache[fn] = out
+	return out
+}
+
+// helperPostCmps: the asserted postconditions of a statically called helper, rewritten to the
+// caller's access paths (the callee's parameter name replaced by the path of the argument).
+func helperPostCmps(call *ssa.Call) []Cmp {
+	cal := call.Call.StaticCallee()
+	if cal == nil || call.Call.IsInvoke() {
+		return nil
+	}
+	post := assertedPost(cal)
+	if len(post) == 0 || len(call.Call.Args) != len(cal.Params) {
+		return nil
+	}
+	var out []Cmp
+	for _, pc := range post {
+		arg := call.Call.Args[pc.param]
+		if !isPathLike(arg) {
+			continue
+		}
+		pn := cal.Params[pc.param].Name()
+		re := func(t Term) Term {
+			if t.isLen() {
+				t.LenPath = accessPath(arg) + strings.TrimPrefix(t.LenPath, pn)
+			}
+			return t
+		}
+		out = append(out, Cmp{L: re(pc.cmp.L), Op: pc.cmp.Op, R: re(pc.cmp.R)})
+	}
+	return out
+}
+
 // pathFactsCache: per function, per instruction: conditions with the same truth value in every
 // abstract state (errpath) that reaches the instruction.
 var pathFactsCache = map[*ssa.Function]map[ssa.Instruction]map[ssa.Value]bool{}
@@ -454,6 +561,10 @@ func FactsAt(at ssa.Instruction) *Facts {
 			if cond, ok := assertingCall(in); ok {
 				if b != ab || instrIndex(in) < instrIndex(at) {
 					f.addCond(cond, true, 0)
+				}
+			} else if call, isCall := in.(*ssa.Call); isCall {
+				if b != ab || instrIndex(in) < instrIndex(at) {
+					f.Cmps = append(f.Cmps, helperPostCmps(call)...)
 				}
 			}
 		}
